@@ -9,8 +9,8 @@
     - [StackOverflow]  recursion deeper than the platform stack (process abort)
     - [OutOfFuel]      model artefact: the structural fuel of a loop ran out (proved impossible)
     - [Unmodelled]     the outcome depends on library behaviour outside this model (explicit partiality)
-    The trace records every buffer allocation request the decoder makes ([vec![0u8; n]] in
-    [read_string], the padding buffer of CHAR normalisation) as [Alloc n] (bytes).
+    The trace records every byte-buffer the decoder fills ([read_string]'s buffer, the padding
+    width of CHAR normalisation) as [Alloc n] (bytes).
 
     No proofs in this file. *)
 From Coq Require Import List ZArith Bool.
@@ -25,7 +25,7 @@ Inductive error : Type :=
 | ETag (t : Z)          (* TypeTag::from_u8 / ExprTag::from_u8 unknown byte *)
 | EEnum (what v : Z)    (* unknown direction / timing / event / granularity / action / operator byte *)
 | EDataType             (* parse_data_type: "Unsupported data type" *)
-| ECatalog (what : Z)   (* create_schema/role/table/index/trigger failed: 0 schema 1 role 2 table 3 index-table 4 index-dup 5 index-column 6 trigger *)
+| ECatalog (what : Z)   (* create_schema/role/table/index/trigger failed: 0 schema 1 role 2 table 3 index-table 4 index-dup 5 index-column 6 trigger 7 rows claimed for a table without columns *)
 | ETableNotFound        (* read_data: table named in the data section does not exist *)
 | EInsert (what : Z)    (* Table::insert rejected the row: 0 column count, 1 NULL, 2 type mismatch *)
 | ETemporal             (* Date/Time/Timestamp FromStr returned Err *)
@@ -121,11 +121,15 @@ Definition read_f32 : dec Z := b <- read_exact 4 ;; ret (le_val b).       (* fro
 Definition read_f64 : dec Z := b <- read_exact 8 ;; ret (le_val b).
 Definition read_bool : dec bool := b <- read_exact 1 ;; ret (negb (le_val b =? 0)).
 
-(** [read_string]: length prefix, then [vec![0u8; len]] (the allocation happens BEFORE any byte of
-    the payload is read), [read_exact], [String::from_utf8] *)
+(** [read_string]: length prefix, then [reader.take(len).read_to_end(&mut buf)] into a buffer that
+    grows with what the input actually holds (the length prefix is never used as an allocation size),
+    then the length check ("failed to fill whole buffer") and [String::from_utf8].
+    The buffer event records the bytes buffered: [min len (remaining input)]; the [Vec]'s capacity is
+    within a small constant factor of it. *)
+Definition buffer_upto (len : Z) : dec unit := fun bs => ([Alloc (Z.min len (blen bs))], Ok tt bs).
 Definition read_string : dec bytes :=
   len <- read_u32 ;;
-  emit (Alloc len) ;;;
+  buffer_upto len ;;;
   buf <- read_exact len ;;
   if utf8_valid buf then ret buf else fail EUtf8.
 
